@@ -110,7 +110,7 @@ CLAIMED = {
         text="For ~440 comb-only single-module designs (random comb programs, see DESIGN 6.12, plus shapes written for each pass: single-reader `let` chains, dead and "
              "duplicate definitions, base-write + guarded overrides, >= 8-arm selector chains (LUT mode), bit-wise "
              "transposition/assembly, case decoding, wide selectors, element-wise array lanes, chain inputs rewritten inside a "
-             "version-split span; plus the operator corpus) the real "
+             "version-split span; plus the comb designs of the C19 corpus) the real "
              "build_ir pipeline is run under: the default, each of the ten toggles named in the property switched off, "
              "all ten off, and seeded random subsets (quick 4, thorough 32, plus the 7 per-stage levers). For every "
              "design x toggle set z3 decides that every output port the emitted IR stores equals the same RTL term for "
